@@ -26,32 +26,21 @@ Next == \/ blk = 0 /\ blk' \in 1..((N + BlockSize - 1) \div BlockSize) /\ i' = 0
            /\ i' \in {j \in ((blk - 1) * BlockSize + 1)..(blk * BlockSize) : j <= N}
 Spec == Init /\ [][Next]_vars
 B(b) == IF b THEN 1 ELSE 0
-SetOfOpts(opts) == {<<opts[j][1], opts[j][2]>> : j \in 1..Len(opts)}
-SetOfView(v) == {<<v[j].name, SetOfOpts(v[j].opts)>> : j \in 1..Len(v)}
 IsErr(d) == Len(d) = 1 /\ d[1].name = Missing
-SameDict(d, e) == IF IsErr(d) \/ IsErr(e) THEN IsErr(d) /\ IsErr(e) ELSE SetOfView(d) = SetOfView(e)
-ReplLaw(d0, d1) ==
-  /\ Len(d0) = Len(d1)
-  /\ \A j \in 1..Len(d0) :
-       /\ d0[j].name = d1[j].name /\ Len(d0[j].opts) = Len(d1[j].opts)
-       /\ \A k \in 1..Len(d0[j].opts) :
-            LET v == d0[j].opts[k][2]
-                w == d1[j].opts[k][2]
-            IN /\ d0[j].opts[k][1] = d1[j].opts[k][1]
-               /\ (~Contains(v, LocalDir) => w = v)
-               /\ (~Contains(NewDir, LocalDir) => ~Contains(w, LocalDir))
+SameDict(d, e) == IF IsErr(d) \/ IsErr(e) THEN IsErr(d) /\ IsErr(e) ELSE ViewSet(d) = ViewSet(e)
 Verdict ==
   i > 0 =>
     LET c == Cases[i]
         cons == Constructible(c.cfg)
-        viewOK == (c.ok = 1) = cons /\ (cons => SetOfView(c.view) = View(c.cfg))
+        view == IF cons THEN ViewSeq(c.cfg) ELSE <<>>
+        viewOK == (c.ok = 1) = cons /\ (cons => ViewSet(c.view) = ViewSet(view))
         wf == c.ok = 1 /\ ~IsErr(c.dict)
         dictOK == IF ~cons THEN TRUE
-                  ELSE SameDict(c.dict, ToDict(c.cfg, FALSE, FALSE)) \/ SameDict(c.dict, ToDict(c.cfg, FALSE, TRUE))
+                  ELSE SameDict(c.dict, DictOf(view, FALSE, FALSE)) \/ SameDict(c.dict, DictOf(view, FALSE, TRUE))
         replOK == IF ~cons THEN TRUE
-                  ELSE SameDict(c.dictr, ToDict(c.cfg, TRUE, FALSE)) \/ SameDict(c.dictr, ToDict(c.cfg, TRUE, TRUE))
-        lawOK == wf => (~IsErr(c.back) /\ SetOfView(c.back) = SetOfView(c.view))
-        rlawOK == wf => (~IsErr(c.dictr) /\ ReplLaw(c.dict, c.dictr))
-        dev == cons /\ AllEffective(c.cfg) /\ HasLiteralDollar(c.cfg)
+                  ELSE SameDict(c.dictr, DictOf(view, TRUE, FALSE)) \/ SameDict(c.dictr, DictOf(view, TRUE, TRUE))
+        lawOK == wf => (~IsErr(c.back) /\ ViewSet(c.back) = ViewSet(c.view))
+        rlawOK == wf => (~IsErr(c.dictr) /\ ReplaceLaw(c.dict, c.dictr))
+        dev == cons /\ AllOK(view) /\ HasLiteralDollar(view)
     IN PrintT("VERDICT " \o ToJson(<<i, B(viewOK), B(dictOK), B(replOK), B(lawOK), B(rlawOK), B(dev)>>))
 =============================================================================
